@@ -105,6 +105,12 @@ def run(case, ctx, rng):
             return [tuple(x) for x in g1], [tuple(x) for x in g2]
         ctx.eq('combink:lazy-generators', call(lazy), (want, list(itertools.combinations(orig, max(1, p - 1)))), l=orig, p=p)
         ctx.eq('combink:repeatable', call(lambda: [tuple(x) for x in P.combink(l, p, 0)]), want, l=orig, p=p, after='an abandoned generator')
+        # a refused request (p = 0 or p > n, on a shorter, this, or a longer list) leaves nothing behind for the next legal one
+        big = list(range(len(l) + 3))
+        for bl, bp in (([], 1), (l[:1], 2), (l, 0), (l, len(l) + 1), (big, 0), (big, len(big) + 2)):
+            for ll, pp in ((big, len(big)), (big, len(big) - 1), (l, p)):
+                call(lambda: list(P.combink(bl, bp, 0)))
+                ctx.eq('combink:repeatable', call(lambda: [tuple(x) for x in P.combink(ll, pp, 0)]), list(itertools.combinations(ll, pp)), l=ll, p=pp, after='a refused request combink(%r,%d)' % (bl, bp))
     elif k == 'nextperm-all':
         n, a = case['n'], case['alpha']
         ctx.cls(('nextperm-all', n, a))
@@ -139,10 +145,23 @@ def run(case, ctx, rng):
         ws = [rng.randint(1, case['wmax']) for _ in range(n)]
         if case['dup'] and n >= 2:
             ws[-1] = ws[0]
-        items = [(i, w) for i, w in enumerate(ws)]
+        pk = ['int', 'str', 'mixed', 'dict', 'complex', 'int'][(n + case['wmax']) % 6]          # payloads are arbitrary objects
+        pay = {'int': lambda i: i, 'str': lambda i: 'item%d' % i, 'mixed': lambda i: i if i % 2 else 'item%d' % i, 'dict': lambda i: {'id': i}, 'complex': lambda i: complex(i, 1)}[pk]
+        items = [(pay(i), w) for i, w in enumerate(ws)]
+        def sub_collection(r):
+            # every returned couple is one of the items, no item used more often than it occurs
+            if not isinstance(r, list): return False
+            free = list(items)
+            for x in r:
+                for t, it in enumerate(free):
+                    if it == x:
+                        del free[t]; break
+                else:
+                    return False
+            return True
         best = best_subsets(ws)
         tot = sum(ws)
-        ctx.cls(('knap', n, case['wmax'], case['dup']))
+        ctx.cls(('knap', n, case['wmax'], case['dup'], pk))
         for s in range(1, tot + 1):
             feasible = s in best
             for fn, name in ((K.exactsum, 'exactsum'), (K.dynprog, 'dynprog')):
@@ -151,16 +170,34 @@ def run(case, ctx, rng):
                 ctx.eq(name + ':arguments-unchanged', arg, items, s=s)
                 det = dict(items=items, s=s)
                 if feasible:
-                    ok = isinstance(r, list) and all(x in items for x in r) and len(set(r)) == len(r) and sum(x[1] for x in r) == s
-                    reuse = (isinstance(r, list) and all(x in items for x in r) and sum(x[1] for x in r) == s and len(set(r)) < len(r))
+                    ok = sub_collection(r) and sum(x[1] for x in r) == s
+                    reuse = (isinstance(r, list) and all(x in items for x in r) and sum(x[1] for x in r) == s and not sub_collection(r))
                     ctx.check(name + ':answer', ok, r, 'a sub-collection of the items with weight sum %d' % s, reuse=reuse, **det)
                     if ok and name == 'dynprog':
                         ctx.eq('dynprog:minimal-cardinality', len(r), best[s], **det)
                 else:
-                    reuse = (isinstance(r, list) and all(x in items for x in r) and sum(x[1] for x in r) == s and len(set(r)) < len(r))
+                    reuse = (isinstance(r, list) and all(x in items for x in r) and sum(x[1] for x in r) == s and not sub_collection(r))
                     ctx.check(name + ':answer', (r is None or r is False) and not is_exc(r), r, 'failure value (no sub-collection sums to %d)' % s, reuse=reuse, **det)
                 r2 = call(fn, list(items), s)
                 ctx.check(name + ':repeatable', (r2 == r) and not (is_exc(r2) != is_exc(r)), r2, r, **det)
+        # one list object the caller keeps and changes between calls: every call answers for the list as it is at that moment
+        live = list(items)
+        for step in range(4):
+            if not live: break
+            wsl = [x[1] for x in live]; bl = best_subsets(wsl); s = rng.choice(sorted(bl)[1:] or [1])
+            for fn, name in ((K.exactsum, 'exactsum'), (K.dynprog, 'dynprog')):
+                r = call(fn, live, s)
+                free = list(live); okl = isinstance(r, list)
+                for x in (r if okl else []):
+                    if x in free: free.remove(x)
+                    else: okl = False
+                reuse = isinstance(r, list) and all(x in live for x in r) and sum(x[1] for x in r) == s and not okl
+                ctx.check(name + ':answer', okl and sum(x[1] for x in r) == s and (name != 'dynprog' or len(r) == bl[s]), r, 'a%s sub-collection of the current list with weight sum %d' % (' minimal' if name == 'dynprog' else '', s),
+                          reuse=reuse, items=list(live), s=s, history='the caller changed the list between calls (step %d)' % step)
+            op = rng.randrange(3)
+            if op == 0: live.pop(rng.randrange(len(live)))
+            elif op == 1: live[rng.randrange(len(live))] = (pay(100 + step), rng.randint(1, case['wmax']))
+            else: live.append((pay(200 + step), rng.randint(1, case['wmax'])))
 
 def classify(case, fail):
     # the only open finding: dynprog's coin-change recurrence may use one item several times.  The key
